@@ -103,6 +103,9 @@ H("C04", "mpq", _C, "quick", "C04.b hash_string == reference HashString, 4 hash 
   ["c04b_hash_len0", "c04b_hash_len1", "c04b_hash_len2"],
   ["crypto::hash::hash_string"], "name: every valid UTF-8 string of exactly 0/1/2 bytes (symbolic), hash type in 0..4 (symbolic)",
   "name length <= 2 bytes; unwind 258 for the concrete reference table", assumes=["bytes form valid UTF-8 (a &str cannot carry anything else)"])
+H("C04", "mpq", _C, "quick", "C04.b hash_string == reference HashString on concrete non-ASCII names (cheap guard for Unicode-aware folding)",
+  ["c04b_hash_nonascii_samples"], ["crypto::hash::hash_string"], "five concrete non-ASCII names, hash type symbolic", "concrete names",
+  timeout=600)
 H("C04", "mpq", _C, "thorough", "C04.b hash_string == reference HashString, 3-byte names", ["c04b_hash_len3"],
   ["crypto::hash::hash_string"], "name: every valid UTF-8 string of exactly 3 bytes, hash type symbolic",
   "name length 3", assumes=["bytes form valid UTF-8"], timeout=1500)
@@ -391,10 +394,14 @@ H("C05", "mpq", _HD, "quick", "C05.mpq.1 MpqHeader::read is total on arbitrary (
   ["c05_mpq_header_v1_total", "c05_mpq_header_v2_total", "c05_mpq_header_v3_total", "c05_mpq_header_v4_total"],
   ["header::MpqHeader::read_with_limits", "security::validate_header_security", "header::MpqHeader::{sector_size,get_hash_table_pos,get_block_table_pos,get_archive_size}"],
   "32/44/68/208 header bytes fully symbolic behind the assigned magic and version tag; symbolic truncation length", "one header", stubs=[FMT], timeout=900)
-H("C05", "mpq", _HD, "quick", "C05.mpq.1 header discovery terminates and reports no header for a file that contains none (incl. user-data headers pointing anywhere)",
-  ["c05_mpq_find_header_no_magic", "c05_mpq_find_header_userdata_beyond_eof", "c05_mpq_find_header_userdata_inside"], ["header::find_header_with_limits"],
-  "file of 528 bytes: 16 symbolic bytes at each scanned offset (0, 512), zeros elsewhere; user-data header with header_offset >= file size (symbolic) or pointing at offset 512", "2 scan steps, unwind 6",
-  assumes=["no MPQ header magic where none is intended"], stubs=[FMT], timeout=900, termination_of=["find_header_with_limits"])
+H("C05", "mpq", _HD, "quick", "C05.mpq.1 header discovery terminates when a user-data header points at or beyond the end of the file (any such offset)",
+  ["c05_mpq_find_header_userdata_beyond_eof"], ["header::find_header_with_limits"],
+  "file of 528 bytes: user-data header at offset 0 with 12 symbolic bytes, header_offset >= file size (symbolic)", "2 scan steps, unwind 6",
+  stubs=[FMT], timeout=900, termination_of=["find_header_with_limits"])
+H("C05", "mpq", _HD, "thorough", "C05.mpq.1 header discovery terminates and reports no header for a file that contains none (no magic / user-data header pointing at a non-header)",
+  ["c05_mpq_find_header_no_magic", "c05_mpq_find_header_userdata_inside"], ["header::find_header_with_limits"],
+  "file of 528 bytes: 16 symbolic bytes at each scanned offset (0, 512), zeros elsewhere", "2 scan steps, unwind 6",
+  assumes=["no MPQ header magic where none is intended"], stubs=[FMT], timeout=2400, termination_of=["find_header_with_limits"])
 H("C05", "mpq", _HD, "quick", "canary", ["c05_mpq_header_canary"], ["header::MpqHeader::read"], "vacuity twin", "-", expect="canary", stubs=[FMT])
 H("C05", "mpq", _AD, "quick", "C05.mpq.8 ADPCM decoder is total on arbitrary input (no table index out of range), output bounded by the requested size",
   ["c05_adpcm_mono_total_n5", "c05_adpcm_mono_total_n12", "c05_adpcm_stereo_total_n12", "c05_adpcm_next_step_index_in_table"],
@@ -463,6 +470,16 @@ H("C10", "mpq", _SG, "thorough", "C10.b signature window crossing a 64 KiB diges
   "65664 signed bytes: 192 symbolic bytes around offset 65536 (rest concrete), window [65500, 65572)", "one boundary crossing",
   stubs=[FMT, "md5::compress::compress -> tap recording the three 64-byte blocks around the boundary"], timeout=2400)
 
+# ------------------------------------------------------------------------------- C10.c attributes
+_AT = "verif_kani_attributes"
+H("C10", "mpq", _AT, "quick", "C10.c (attributes) write->parse keeps every per-file CRC32 / timestamp / MD5 / patch bit; size == header + arrays",
+  ["c10c_attributes_roundtrip_crc", "c10c_attributes_roundtrip_crc_md5", "c10c_attributes_roundtrip_all", "c10c_attributes_roundtrip_time_patch"],
+  ["special_files::attributes::Attributes::{to_bytes,parse}"], "2 files, all attribute values symbolic; flag combination concrete per harness (0x1, 0x5, 0xF, 0xA)",
+  "2 files", stubs=[FMT], timeout=900)
+H("C10", "mpq", _AT, "quick", "canary", ["c10c_canary"], ["special_files::attributes::Attributes::to_bytes"], "vacuity twin", "-", expect="canary", stubs=[FMT])
+H("C05", "mpq", _AT, "quick", "C05.mpq.5 (attributes) parser is total on hostile content", ["c05_attributes_parse_total"],
+  ["special_files::attributes::Attributes::parse"], "24 bytes symbolic behind the version word, block counts 0, 1, 2", "24-byte file, <= 2 blocks", stubs=[FMT], timeout=900)
+
 
 # =============================================================================== per-property fragments
 # harness/cat_*.py files are executed in this namespace (they call H(...), extend CRATES / OUTSIDE)
@@ -470,3 +487,6 @@ import glob as _glob, os as _os
 for _f in sorted(_glob.glob(_os.path.join(_os.path.dirname(_os.path.abspath(__file__)), "cat_*.py"))):
     with open(_f) as _fh:
         exec(compile(_fh.read(), _f, "exec"))
+
+if globals().get("_C05_BLP_PENDING"):
+    _c05_blp_register()
